@@ -686,9 +686,11 @@ impl InnerInMemory {
         }
         debug!("generating nsec3 records: {origin}");
 
-        // first remove all existing nsec records
-        self.records
-            .retain(|k, _| k.record_type != RecordType::NSEC3);
+        // first remove all existing nsec records (and the NSEC3PARAM, which is generated again below:
+        // re-upserting an identical record is not an update and would trip the assertion there)
+        self.records.retain(|k, _| {
+            k.record_type != RecordType::NSEC3 && k.record_type != RecordType::NSEC3PARAM
+        });
 
         // now go through and generate the nsec3 records
         let ttl = self.minimum_ttl(origin);
